@@ -14,7 +14,7 @@ ASSUMPTIONS = ["dyadic penalties"]
 
 
 def budget(tier):
-    return 2000 if tier == "quick" else 40000
+    return 8000 if tier == "quick" else 80000
 
 
 def gen(rng, index, tier):
